@@ -553,7 +553,8 @@ func (g *gen) genHistory(id int, k *ktype, kidx int) history {
 			if nilMap {
 				fmt.Fprintf(&sb, "\tstep(%d, \"set \" + try(func() { m[%s[%d]] = %d }) + \" len=\" + itoa(len(m)))\n", s, pool, i, v)
 			} else if op == "setvar" {
-				fmt.Fprintf(&sb, "\t{\n\t\tkk := %s[%d]\n\t\tm[kk] = %d\n\t\tstep(%d, \"set len=\" + itoa(len(m)) + \" \" + %s(m))\n\t}\n", pool, i, v, s, dg)
+				// the variable used as key is overwritten afterwards: the map keeps the key it was given
+				fmt.Fprintf(&sb, "\t{\n\t\tkk := %s[%d]\n\t\tm[kk] = %d\n\t\tkk = %s[%d]\n\t\t_ = kk\n\t\tstep(%d, \"set len=\" + itoa(len(m)) + \" \" + %s(m))\n\t}\n", pool, i, v, pool, pick("k2"), s, dg)
 			} else {
 				fmt.Fprintf(&sb, "\tm[%s[%d]] = %d\n\tstep(%d, \"set len=\" + itoa(len(m)) + \" \" + %s(m))\n", pool, i, v, s, dg)
 			}
